@@ -57,8 +57,9 @@ let sq name l mode =
          | M.HOk (_, size) -> "ok size=" ^ string_of_n size
          | M.HThrow m -> "err " ^ ocaml_of_cstring m)
       else if mode = "short" && need = 0 then "na"
+      else if mode = "one" && need <= 1 then "na"
       else
-        let cap = (match mode with "short" -> need - 1 | "exact" -> need | _ -> need + 3) in
+        let cap = (match mode with "short" -> need - 1 | "exact" -> need | "zero" -> 0 | "one" -> 1 | _ -> need + 3) in
         let contents = List.map (fun _ -> -1) (range 1 (cap + 16)) in
         (match M.spec_helper hc.M.hc_msg payload (Some contents) (n_of_int cap) with
          | M.HThrow m -> "err " ^ ocaml_of_cstring m
